@@ -13,7 +13,7 @@ import (
 )
 
 func init() {
-	register("C19", "Structural clauses of metadata-only transfer, decided on all paths of the receive loop: the id counter advances for every announced entry including the skipped listing-file name (finding F1, fixed); in metadata mode every announced entry other than the listing file's own name is framed into the buffer before the loop continues; a frame is alloc(size+4) with the 32-bit little-endian size written to the first four bytes and the stat marshalled (checked) into the rest of the same slice; ids are registered only for selected regular files; an entry the selector rejected is never forwarded to the disk writer, pending ancestors are replayed before a selected entry and the pending list is cleared; the listing file is written only after the checked group wait, after removing any previous entry of that name, with write and close checked. The pending-ancestors stack top is inspected in every iteration before anything is pushed. An announced entry named like the listing file is neither forwarded nor registered nor framed into the listing; push/pop/clear of the ancestor stack do what their names say and the unwinding loop pops. buffer.alloc(n) hands out exactly n bytes that are part of b.chunks, extending only the last chunk in place (read from and written back to slot len-1, under l+n <= cap) and appending otherwise. With a non-empty list pop shortens it and peek reports its top; the unwinding loop pops exactly while the top is not the entry's parent directory. Does not decide the remaining chunk arithmetic of the buffer, the ancestor stack for all tree shapes, or removal of stale entries.", runC19)
+	register("C19", "Structural clauses of metadata-only transfer, decided on all paths of the receive loop: the id counter advances for every announced entry including the skipped listing-file name (finding F1, fixed); in metadata mode every announced entry other than the listing file's own name is framed into the buffer before the loop continues; a frame is alloc(size+4) with the 32-bit little-endian size written to the first four bytes and the stat marshalled (checked) into the rest of the same slice; ids are registered only for selected regular files; an entry the selector rejected is never forwarded to the disk writer, pending ancestors are replayed before a selected entry and the pending list is cleared; the listing file is written only after the checked group wait, after removing any previous entry of that name, with write and close checked. The pending-ancestors stack top is inspected in every iteration before anything is pushed. An announced entry named like the listing file is neither forwarded nor registered nor framed into the listing; push/pop/clear of the ancestor stack do what their names say and the unwinding loop pops. buffer.alloc(n) hands out exactly n bytes that are part of b.chunks, extending only the last chunk in place (read from and written back to slot len-1, under l+n <= cap) and appending otherwise. With a non-empty list pop shortens it and peek reports its top; the unwinding loop pops exactly while the top is not the entry's parent directory. A fresh chunk is made only for requests not larger than its constant capacity (the oversize threshold is not above the chunk size). Does not decide the remaining chunk arithmetic of the buffer, the ancestor stack for all tree shapes, or removal of stale entries.", runC19)
 }
 
 func runC19(c *Ctx) {
@@ -983,6 +983,76 @@ func r19_7(c *Ctx, rule string) {
 		}
 	})
 	c.R.Floor(rule, "in-place extensions of the last chunk", ne, 1)
+	// a fresh chunk has room for what is put into it: every make([]byte, n, K)
+	// with a constant capacity K is reached only for n <= K - the requests that
+	// get a slice of their own are those above a threshold that is not above K
+	// (a guard of 32 KiB with chunks of 4 KiB makes `make` panic for every
+	// record in between)
+	eng.InstrsShallow(al, func(in ssa.Instruction) {
+		// (with a constant capacity go/ssa builds the slice as new [K]byte
+		// cut to [:n]; a variable capacity stays a MakeSlice)
+		var mk ssa.Instruction
+		var capK int64
+		switch v := in.(type) {
+		case *ssa.MakeSlice:
+			k, isK := eng.ConstInt(v.Cap)
+			if !isK || !eng.SameValue(eng.Canon(v.Len), eng.Canon(n)) {
+				return
+			}
+			mk, capK = v, k
+		case *ssa.Slice:
+			al2, isA := v.X.(*ssa.Alloc)
+			if !isA || v.High == nil || !eng.SameValue(eng.Canon(v.High), eng.Canon(n)) {
+				return
+			}
+			pt, isP := al2.Type().Underlying().(*types.Pointer)
+			if !isP {
+				return
+			}
+			at, isArr := pt.Elem().Underlying().(*types.Array)
+			if !isArr {
+				return
+			}
+			mk, capK = v, at.Len()
+		default:
+			return
+		}
+		// the oversize guards: comparisons of n with a constant
+		guarded := false
+		eng.InstrsShallow(al, func(i2 ssa.Instruction) {
+			iff, isIf := i2.(*ssa.If)
+			if !isIf {
+				return
+			}
+			b, isB := iff.Cond.(*ssa.BinOp)
+			if !isB || !eng.SameValue(eng.Canon(b.X), eng.Canon(n)) {
+				return
+			}
+			k, isC := eng.ConstInt(b.Y)
+			if !isC {
+				return
+			}
+			// the edge on which n <= k holds
+			var edge int
+			switch b.Op {
+			case token.GTR: // n > k: false edge
+				edge = 1
+			case token.LEQ: // n <= k: true edge
+				edge = 0
+			case token.GEQ: // n >= k: false edge means n < k
+				edge, k = 1, k-1
+			case token.LSS: // n < k: true edge
+				edge, k = 0, k-1
+			default:
+				return
+			}
+			t := iff.Block().Succs[edge]
+			if k <= capK && len(t.Preds) == 1 && (t == mk.Block() || t.Dominates(mk.Block())) {
+				guarded = true
+			}
+		})
+		c.R.Check(guarded, rule, fmt.Sprintf("%s/fresh-chunk-fits@%s", base, blockName(mk)), c.pos(mk), fmt.Sprintf("make([]byte, n, %d) only for n <= %d", capK, capK), fmt.Sprintf("a fresh chunk is made with capacity %d for requests that are not known to be that small (the oversize threshold is larger than the chunk): make panics with len > cap and no listing is written", capK))
+	})
 	wt := c.Fn(rule, "fsutil.(*buffer).WriteTo")
 	if wt != nil {
 		calls := c.P.CallsTo(wt, "(io.Writer).Write")
